@@ -453,7 +453,12 @@ class Parser(IdlVisitor):
             path = Path(node.getText()[1:-1])
             search_paths = [path, self.idl.parent / path] + [include_dir / path for include_dir in self.include_dirs]
             for search_path in search_paths:
-                if search_path.exists() and not search_path.is_dir():
+                try:
+                    found = search_path.exists() and not search_path.is_dir()
+                except OSError:
+                    # the operating system refuses the name itself (e.g. longer than the file system allows)
+                    found = False
+                if found:
                     if search_path == self.idl:
                         self.errors.append(Parser.ParsingException(
                             f"Circular import detected: file {self.idl} directly references itself!",
